@@ -17,6 +17,8 @@ use crate::runner::{violation, RunCtx, RunReport, Stats, Verdict};
 const ALPHA: &[&[u8]] = &[b"0", b"1", b"9", b"a", b"F", b";", b":", b" ", b"\r", b"\n", b"+", b"-", b"x", b"\r\n", b"HTTP/1.1 200 OK\r\n", b"\r\n\r\n"];
 
 struct Plan {
+    /// the hostile bytes are a proxy's reply to CONNECT (https URL behind an http proxy)
+    via_connect: bool,
     kind: &'static str,
     wire: Vec<u8>,
     /// for endless constructs: (offset where the construct starts, limit that must stop the client)
@@ -154,7 +156,17 @@ fn gen(g: &mut G, thorough: bool) -> Plan {
         _ => {
             // (c) endless streams, one per unbounded-looking construct
             let total = if thorough { 2 << 20 } else { 512 << 10 };
-            match g.below(6) {
+            match g.below(7) {
+                6 => {
+                    // refusal body of a CONNECT reply that never ends (only meaningful via_connect; as an
+                    // origin response it is a plain close-delimited body read with a fixed buffer)
+                    let head = b"HTTP/1.1 403 Forbidden\r\nX-Why: no\r\n\r\n".to_vec();
+                    let start = head.len();
+                    let mut w = head;
+                    w.resize(total, b'x');
+                    bound = Some((start, 10 * 1024, "connect-refusal-body-without-end"));
+                    ("endless-refusal-body", w)
+                }
                 0 => {
                     let mut w = b"HTTP/1.1 200 ".to_vec();
                     w.resize(total, b'a');
@@ -234,7 +246,16 @@ fn gen(g: &mut G, thorough: bool) -> Plan {
             faults.read_eintr.push(g.below(30));
         }
     }
+    let via_connect = match kind {
+        "endless-refusal-body" => true,
+        "endless-chunk-size-line" | "gzip-bomb" | "alphabet-chunked-body" => false,
+        _ => g.chance(1, 4),
+    };
+    if via_connect {
+        g.probe("hostile-connect-reply");
+    }
     Plan {
+        via_connect,
         kind,
         wire,
         bound,
@@ -264,9 +285,13 @@ fn caller(p: &Plan) -> Obs {
     let mut buf = vec![0u8; p.read_size.max(1)];
     crate::alloc::start();
     let mut o = Obs { send: Err(String::new()), reads: 0, out_len: 0, first_err: None, max_req: 0, peak: 0 };
-    let mut rb = attohttpc::RequestBuilder::new(attohttpc::Method::from_bytes(p.method.as_bytes()).unwrap(), format!("http://{}/x", bodyx::HOST_IP))
+    let url = if p.via_connect { "https://secure.test/x".to_string() } else { format!("http://{}/x", bodyx::HOST_IP) };
+    let mut rb = attohttpc::RequestBuilder::new(attohttpc::Method::from_bytes(p.method.as_bytes()).unwrap(), url)
         .read_timeout(Duration::from_secs(30))
         .follow_redirects(false);
+    if p.via_connect {
+        rb = rb.proxy_settings(attohttpc::ProxySettings::builder().https_proxy(url::Url::parse("http://origin.test:80").unwrap()).build());
+    }
     if let Some(m) = p.max_headers {
         rb = rb.max_headers(m);
     }
@@ -319,9 +344,41 @@ fn caller(p: &Plan) -> Obs {
     o
 }
 
+fn run_connect_world(p: &Plan, ctx: &RunCtx) -> bodyx::Ran<Obs> {
+    use std::sync::{Arc, Mutex};
+    let sim = attosim::Sim::new(ctx.sim_config());
+    let ip: std::net::IpAddr = bodyx::HOST_IP.parse().unwrap();
+    sim.add_host(bodyx::HOST_NAME, vec![ip]);
+    let script = p.script.clone();
+    let faults = p.faults.clone();
+    sim.add_listener(
+        ip,
+        80,
+        attosim::ConnectBehaviour::Accept { latency_ns: attosim::NS_PER_MS },
+        Some(Box::new(move |_i| {
+            Box::new(crate::peers::RawPeer {
+                script: script.clone(),
+                on_first_bytes: true,
+                started: false,
+                received: Arc::new(Mutex::new(Vec::new())),
+                faults: Some(faults.clone()),
+                marker: Some(b"\r\n\r\n".to_vec()),
+                // after a 2xx-looking reply the client starts a TLS handshake: not reproducible bytes
+                opaque: true,
+            })
+        })),
+    );
+    let out = sim.run(|| caller(p));
+    bodyx::Ran { observed: out.result, history: out.history, sched_tape: out.sched_tape, seen: Default::default() }
+}
+
 pub fn scenario(g: &mut G, ctx: &RunCtx) -> RunReport {
     let p = gen(g, ctx.thorough);
-    let ran = bodyx::run_origin(&p.script, &p.faults, ctx, || caller(&p));
+    let ran = if p.via_connect {
+        run_connect_world(&p, ctx)
+    } else {
+        bodyx::run_origin(&p.script, &p.faults, ctx, || caller(&p))
+    };
     // the caller thread may have been torn down with the allocator still measuring
     let _ = crate::alloc::stop();
     let mut stats = Stats::default();
@@ -346,7 +403,7 @@ pub fn scenario(g: &mut G, ctx: &RunCtx) -> RunReport {
                         format!("limit-not-enforced:{}", what),
                         format!("{} bytes were pulled from the transport before giving up; the construct starts at {} and its limit is {} (+8 KiB buffer)", consumed, start, limit),
                     );
-                } else if o.send.is_ok() && !what.starts_with("chunk") {
+                } else if o.send.is_ok() && !what.starts_with("chunk") && !(what.starts_with("connect-refusal") && !p.via_connect) {
                     v = violation(format!("endless-head-accepted:{}", what), "send() returned Ok for a head that never ends".to_string());
                 } else if what.starts_with("chunk") && p.method != "HEAD" && o.send.is_ok() && o.first_err.is_none() {
                     v = violation(format!("endless-construct-accepted:{}", what), format!("the body read ended without an error after {} bytes", o.out_len));
@@ -374,10 +431,10 @@ pub fn scenario(g: &mut G, ctx: &RunCtx) -> RunReport {
     };
     RunReport {
         verdict,
-        shape: format!("{}/{}/{:?}/seg={}/rr={}/rs={}/eintr={}", p.kind, p.method, p.end, p.seg_name, p.rereads.min(1), p.read_size, !p.faults.read_eintr.is_empty()),
+        shape: format!("{}{}/{}/{:?}/seg={}/rr={}/rs={}/eintr={}", if p.via_connect { "connect-reply:" } else { "" }, p.kind, p.method, p.end, p.seg_name, p.rereads.min(1), p.read_size, !p.faults.read_eintr.is_empty()),
         nontrivial: true,
         stats,
         sched_tape: ran.sched_tape,
-        describe: if ctx.describe { format!("{} method={} end={:?} seg={} rereads={} read_size={} wire={:?}", p.desc, p.method, p.end, p.seg_name, p.rereads, p.read_size, short(&p.wire)) } else { String::new() },
+        describe: if ctx.describe { format!("{}{} method={} end={:?} seg={} rereads={} read_size={} wire={:?}", if p.via_connect { "[as CONNECT reply] " } else { "" }, p.desc, p.method, p.end, p.seg_name, p.rereads, p.read_size, short(&p.wire)) } else { String::new() },
     }
 }
